@@ -704,6 +704,68 @@ func TestVerifC07Jose(t *testing.T) {
 			}
 			return !ok
 		}},
+		// after-error reuse of parsed objects: a failed Decrypt / Verify / UnmarshalJSON, then the same
+		// object again with the right key / a valid document, then its serialisers
+		{name: "jose.reuse", gen: func(r *vRng) []byte {
+			switch r.intn(3) {
+			case 0:
+				return append([]byte{0}, vC07JweByLibrary(r)...)
+			case 1:
+				return append([]byte{1}, vC07JwsByLibrary(r)...)
+			}
+			return append([]byte{2}, vC07Reuse(vC07JwkSubset)(r)...)
+		}, run: func(b []byte) bool {
+			if len(b) < 1 {
+				return true
+			}
+			switch b[0] % 3 {
+			case 0:
+				obj, err := ParseEncrypted(string(b[1:]))
+				if err != nil {
+					return true
+				}
+				keys := vC07AllDecryptKeys()
+				ok := false
+				for round := 0; round < 2; round++ {
+					for i := range keys {
+						if _, err := obj.Decrypt(keys[len(keys)-1-i]); err == nil {
+							ok = true
+						}
+					}
+					_ = obj.FullSerialize()
+					_, _ = obj.CompactSerialize()
+					_ = obj.GetAuthData()
+				}
+				return !ok
+			case 1:
+				obj, err := ParseSigned(string(b[1:]))
+				if err != nil {
+					return true
+				}
+				keys := vC07AllVerifyKeys()
+				ok := false
+				for round := 0; round < 2; round++ {
+					for i := range keys {
+						if _, err := obj.Verify(keys[len(keys)-1-i]); err == nil {
+							ok = true
+						}
+					}
+					_ = obj.FullSerialize()
+					_, _ = obj.CompactSerialize()
+				}
+				return !ok
+			}
+			p1, p2 := vC07Split2(b[1:])
+			var k JsonWebKey
+			e1 := k.UnmarshalJSON(p1)
+			_ = k.Valid()
+			_, _ = k.MarshalJSON()
+			e2 := k.UnmarshalJSON(p2)
+			_ = k.Valid()
+			_, _ = k.Thumbprint(5)
+			_, _ = k.MarshalJSON()
+			return e1 != nil && e2 != nil
+		}},
 		{name: "jose.jwk", gen: vC07Mix(vC07Jwk, vC07JwkSubset), run: func(b []byte) bool {
 			var k JsonWebKey
 			e1 := k.UnmarshalJSON(b)
